@@ -15,9 +15,9 @@ Definition nodeps (t : Z) : list Z := [].
     is marked failed and dropped, the instance is recorded failed; the event of the retried run finds no
     tree.  The task stays 'init' for ever and no retry can name it (it is not failed). *)
 Definition w_stale_event : list label :=
-  [Rebuild; Accept 1 SInit; StartWrite 1; MainStart 1; MainErr 1; Finish 1;
-   CmdIssue; CmdBegin; Rearm 1; CmdPatch; Rebuild;
-   Accept 1 SRetrying; StartWrite 1; Finish 1; Deliver; Deliver].
+  [Rebuild false; PushRun 1 SInit; Accept 1 SInit; StartWrite 1; MainStart 1; MainErr 1; Finish 1;
+   CmdIssue; CmdBegin; Rearm 1; CmdPatch; Rebuild false; PushRun 1 SRetrying;
+   Accept 1 SRetrying; StartWrite 1; Finish 1; Deliver false; Deliver false].
 
 Theorem stale_event_refuted :
   exists s, run [1] nodeps true false true boot w_stale_event = Some s /\
@@ -31,9 +31,9 @@ Qed.
     write and its de-registration (cancelMap.Delete).  The executor's guard refuses the re-armed task
     ("already running"); it stays 'retrying' for ever while the instance is recorded failed. *)
 Definition w_window : list label :=
-  [Rebuild; Accept 1 SInit; StartWrite 1; MainStart 1; MainErr 1;
-   CmdIssue; CmdBegin; Rearm 1; CmdPatch; Rebuild;
-   Drop 1 SRetrying; Finish 1; Deliver].
+  [Rebuild false; PushRun 1 SInit; Accept 1 SInit; StartWrite 1; MainStart 1; MainErr 1;
+   CmdIssue; CmdBegin; Rearm 1; CmdPatch; Rebuild false; PushRun 1 SRetrying;
+   Drop 1 SRetrying; Finish 1; Deliver false].
 
 Theorem unregister_window_refuted :
   exists s, run [1] nodeps true false true boot w_window = Some s /\
@@ -47,7 +47,7 @@ Qed.
     restarted worker executes the stored command again, finds no failed target, marks the instance running
     and does not initialise it.  Running for ever with nothing in flight. *)
 Definition w_noop_after_crash : list label :=
-  [Rebuild; Accept 1 SInit; StartWrite 1; MainStart 1; MainErr 1; Finish 1; Deliver;
+  [Rebuild false; PushRun 1 SInit; Accept 1 SInit; StartWrite 1; MainStart 1; MainErr 1; Finish 1; Deliver false;
    CmdIssue; CmdBegin; Rearm 1; Crash; RestartIdle; CmdBegin; CmdPatch].
 
 Theorem noop_after_crash_refuted :
@@ -68,9 +68,9 @@ Proof. repeat split; vm_compute; reflexivity. Qed.
 (** non-vacuity: a history of the restricted system with a failure, a retry command, the retry hook and a
     second attempt that succeeds reaches a quiescent state - settled as success *)
 Definition w_ok : list label :=
-  [Rebuild; Accept 1 SInit; StartWrite 1; MainStart 1; MainErr 1; Finish 1; Deliver;
-   CmdIssue; CmdBegin; Rearm 1; CmdPatch; Rebuild; Accept 1 SRetrying; StartWrite 1; Finish 1; Deliver;
-   Accept 1 SInit; StartWrite 1; MainStart 1; MainOk 1; AfterOk 1; Finish 1; Deliver].
+  [Rebuild false; PushRun 1 SInit; Accept 1 SInit; StartWrite 1; MainStart 1; MainErr 1; Finish 1; Deliver false;
+   CmdIssue; CmdBegin; Rearm 1; CmdPatch; Rebuild false; PushRun 1 SRetrying; Accept 1 SRetrying; StartWrite 1; Finish 1; Deliver false;
+   PushRun 1 SInit; Accept 1 SInit; StartWrite 1; MainStart 1; MainOk 1; AfterOk 1; Finish 1; Deliver false].
 
 Example settle_hypotheses_met :
   exists s, run [1] nodeps true true true boot w_ok = Some s /\ Quiescent [1] s /\ ins s = ISuccess.
@@ -81,10 +81,40 @@ Qed.
 (** ... and one through a crash in the middle of a run: the restart finds the task recorded running, the
     watchdog fails it, the instance is settled as failed *)
 Definition w_crash : list label :=
-  [Rebuild; Accept 1 SInit; StartWrite 1; MainStart 1; Crash; Rebuild; WdFail 1].
+  [Rebuild false; PushRun 1 SInit; Accept 1 SInit; StartWrite 1; MainStart 1; Crash; Rebuild false; WdFail 1].
 
 Example settle_after_crash_met :
   exists s, run [1] nodeps true true true boot w_crash = Some s /\ Quiescent [1] s /\ ins s = IFailed /\ started s 1 = true.
 Proof.
   eexists. split; [vm_compute; reflexivity|]. unfold Quiescent. cbn. repeat split. intros t [<-|[]]. cbn. discriminate.
 Qed.
+
+(** ... and one with pre-checks and a continue command: task 1 is blocked when pushed, the instance settles as
+    blocked; a continue command re-arms it, it runs; its dependent is skipped when pushed; settled as success *)
+Definition deps12 (t : Z) : list Z := if Z.eqb t 2 then [1] else [].
+Definition w_block_continue_1 : list label := [Rebuild false; PushBlock 1 SInit; Deliver false].
+Definition w_block_continue_2 : list label :=
+  [CmdIssue; CmdBegin; ContArm 1; CmdPatch; Rebuild false; PushRun 1 SContinue; Accept 1 SContinue; StartWrite 1;
+   MainStart 1; MainOk 1; AfterOk 1; Finish 1; Deliver false; PushSkip 2 SInit; Deliver false].
+
+Definition quiescentb (tasks : list Z) (s : eng) : bool :=
+  quiet tasks s && match ph s with PIdle => true | _ => false end && negb (cmd s) &&
+  forallb (fun t => negb (est_eqb (store s t) SRunning)) tasks.
+
+Lemma quiescentb_ok tasks s : quiescentb tasks s = true -> Quiescent tasks s.
+Proof.
+  unfold quiescentb, Quiescent. intros H. apply andb_true_iff in H. destruct H as (H & H4). apply andb_true_iff in H. destruct H as (H & H3).
+  apply andb_true_iff in H. destruct H as (H1 & H2). repeat split.
+  - exact H1.
+  - destruct (ph s); try discriminate. reflexivity.
+  - destruct (cmd s); [discriminate|reflexivity].
+  - intros t Hin Hst. rewrite forallb_forall in H4. specialize (H4 t Hin). rewrite Hst in H4. discriminate.
+Qed.
+
+Definition obs12 (o : option eng) : option (bool * ist * est * est * bool * bool) :=
+  match o with Some s => Some (quiescentb [1; 2] s, ins s, store s 1, store s 2, started s 1, started s 2) | None => None end.
+
+Example settle_with_prechecks_met :
+  obs12 (run [1; 2] deps12 true true true boot w_block_continue_1) = Some (true, IBlocked, SBlocked, SInit, false, false) /\
+  obs12 (run [1; 2] deps12 true true true boot (w_block_continue_1 ++ w_block_continue_2)) = Some (true, ISuccess, SSuccess, SSkipped, true, false).
+Proof. split; vm_compute; reflexivity. Qed.
